@@ -55,14 +55,19 @@ def fragment_event(pp, tid, A, types, charges, isotopes, rules, max_losses, mono
     def f():
         frs = pp.fragment(src(), monoisotopic=mono, **kw("fragment"))
         others = {rt: pp.fragment(src(), monoisotopic=mono, **kw(rt)) for rt in ("mass", "mz", "label", "mass-label", "mz-label")}
-        fobj = pp.Fragmenter(src(), monoisotopic=mono).fragment(**kw("fragment"))
+        # a Fragmenter is built to be used many times: what is recorded is its SECOND answer
+        fragmenter = pp.Fragmenter(src(), monoisotopic=mono)
+        fragmenter.fragment(**kw("mass"))
+        fobj = fragmenter.fragment(**kw("fragment"))
         rec = []
         for fr in frs:
             m = pp.mass(fr.sequence, charge=fr.charge, ion_type=fr.ion_type, monoisotopic=mono, isotope=fr.isotope,
                         loss=fr.loss, precision=None if prec < 0 else prec)
             z = pp.mz(fr.sequence, charge=fr.charge, ion_type=fr.ion_type, monoisotopic=mono, isotope=fr.isotope,
                       loss=fr.loss, precision=None if prec < 0 else prec)
-            rec.append((m, z))
+            mf = pp.mass(fr.sequence, charge=fr.charge, ion_type=fr.ion_type, monoisotopic=mono, isotope=fr.isotope, loss=fr.loss)
+            zf = pp.mz(fr.sequence, charge=fr.charge, ion_type=fr.ion_type, monoisotopic=mono, isotope=fr.isotope, loss=fr.loss)
+            rec.append((m, z, mf, zf))
         return frs, others, fobj, rec
     o, r = call(f)
     ev = {"tid": tid, "k": "fragment", "A": A, "types": list(types), "charges": list(charges), "isotopes": list(isotopes),
@@ -74,8 +79,9 @@ def fragment_event(pp, tid, A, types, charges, isotopes, rules, max_losses, mono
     frs, others, fobj, rec = r
     ev["frags"] = [{"t": fr.ion_type, "s": fr.start, "e": fr.end, "z": fr.charge, "iso": fr.isotope,
                     "loss6": int(round(fr.loss * 1e6)), "lossText": str(fr.loss), "mass": fix(fr.mass), "mz": fix(fr.mz),
-                    "recMass": fix(m), "recMz": fix(z), "seq": fr.sequence, "label": fr.label, "num": str(fr.number)}
-                   for fr, (m, z) in zip(frs, rec)]
+                    "recMass": fix(m), "recMz": fix(z), "fullMass": fix(mf), "fullMz": fix(zf),
+                    "seq": fr.sequence, "label": fr.label, "num": str(fr.number)}
+                   for fr, (m, z, mf, zf) in zip(frs, rec)]
     ev["masses"] = [fix(x) for x in others["mass"]]
     ev["mzs"] = [fix(x) for x in others["mz"]]
     ev["labels"] = list(others["label"])
@@ -100,7 +106,9 @@ def choose_call(rnd, n):
     else:
         types = rnd.sample(TYPES, rnd.randint(3, 6))
     heavy = any(len(t) == 2 for t in types) and n > 7
-    charges = sorted(rnd.sample([1, 2, 3, 4], 1 if heavy else rnd.choice([1, 1, 2, 3])))
+    charges = rnd.sample([1, 2, 3, 4], 1 if heavy else rnd.choice([1, 1, 2, 3]))      # any order, gaps allowed
+    if rnd.random() < 0.5:
+        charges = sorted(charges)
     isotopes = sorted(rnd.sample([0, 1, 2, 3], 1 if heavy else rnd.choice([1, 1, 2])))
     rules = []
     if rnd.random() < 0.35:
